@@ -273,3 +273,65 @@ Section Enrich.
       intros u Hu. apply H2. simpl. rewrite keys_dset. destruct Hu as [Hu|[Hu|Hu]]; auto.
   Qed.
 End Enrich.
+
+(* ------------------------------------------------------------------ enrich: nodes, sources, depth, value *)
+Section EnrichValue.
+  Variables ei eo : N -> list N.
+  Hypothesis Hsym : forall a b, In a (ei b) <-> In b (eo a).
+
+  Lemma null_false : forall (A : Type) (l : list A), negb (null l) = true <-> l <> [].
+  Proof. intros A l. destruct l; simpl; split; intros H; congruence. Qed.
+
+  (* the intermediate results of one enrich call *)
+  Lemma enrich_inv : forall fuel nodes srcs c,
+    enrich ei eo fuel (nodes, srcs) = Ok c ->
+    exists tail st,
+      let sinks := filter (fun v => null (eo v)) nodes in
+      let L := Z.of_nat (List.length (sinks :: tail)) in
+      layered eo (sinks :: tail) /\
+      (forall a, In a (concat tail) <-> In a nodes /\ eo a <> []) /\
+      fold_left (node_step eo L) (concat tail) (Ok (fold_left (sink_step L) sinks ([], []))) = Ok st /\
+      ncd L nodes (snd st) = Ok (c_dist c) /\
+      c_nodes c = nodes /\ c_sources c = srcs /\ c_value c = fst st /\ c_depth c = L.
+  Proof.
+    intros fuel nodes srcs c H. unfold enrich in H. simpl fst in H. simpl snd in H.
+    destruct (layering ei fuel _ _ []) as [layers|e] eqn:Hl; [|discriminate]. simpl bind in H.
+    destruct (layering_spec ei eo Hsym _ _ _ _ _ Hl) as [tail [Hls [Hlay [Hk1 Hk2]]]]. simpl in Hls. subst layers.
+    simpl hd in H. simpl tl in H.
+    destruct (fold_left (node_step eo _) (concat tail) _) as [st|e] eqn:Hst; [|discriminate]. simpl bind in H.
+    destruct (ncd _ nodes (snd st)) as [dm|e] eqn:Hn; [|discriminate]. simpl in H. inversion H; subst c. clear H.
+    exists tail, st. simpl. split; [exact Hlay|]. split.
+    - intros a. rewrite map_map in Hk1, Hk2. simpl in Hk1, Hk2. rewrite map_id in Hk1, Hk2. split.
+      + intros Ha. apply Hk2 in Ha. apply filter_In in Ha. destruct Ha as [Ha Hne]. apply null_false in Hne. tauto.
+      + intros [Ha Hne]. apply Hk1. apply filter_In. split; [exact Ha|apply null_false; exact Hne].
+    - split; [exact Hst|]. split; [exact Hn|]. tauto.
+  Qed.
+
+  Theorem enrich_value : forall fuel nodes srcs c,
+    enrich ei eo fuel (nodes, srcs) = Ok c ->
+    c_nodes c = nodes /\ c_sources c = srcs /\
+    forall t, In t nodes -> exists d, nsd eo t d /\ lookup N.eqb t (c_value c) = Some (c_depth c - d).
+  Proof.
+    intros fuel nodes srcs c H. destruct (enrich_inv _ _ _ _ H) as [tail [st [Hlay [Htail [Hst [_ [Hn [Hs [Hv Hd]]]]]]]]].
+    split; [exact Hn|]. split; [exact Hs|]. rewrite Hv, Hd. clear Hn Hs Hv Hd H.
+    set (sinks := filter (fun v => null (eo v)) nodes) in *.
+    set (L := Z.of_nat (List.length (sinks :: tail))) in *.
+    assert (Hsk : forall v, In v sinks -> eo v = []).
+    { intros v Hv. apply filter_In in Hv. destruct Hv as [_ Hv]. apply null_nil. exact Hv. }
+    destruct (fold_sink_value eo L sinks ([], [])) as [Hok0 Hk0]; [intros v x Hx; discriminate|exact Hsk|].
+    destruct (fold_left (sink_step L) sinks ([], [])) as [value0 paths0] eqn:Hs0. destruct st as [value paths].
+    destruct (fold_node_value eo L (concat tail) value0 paths0 value paths Hok0) as [Hok Hk]; [|exact Hst|].
+    - intros v Hv. split; [apply Htail in Hv; tauto|].
+      destruct (layered_dsink eo (sinks :: tail) 0 Hlay) with (a := v) as [d [Hd Hle]].
+      + intros u Hu. simpl in Hu. exists 0. split; [|lia]. exists u. split; [exact (Hsk u Hu)|constructor].
+      + simpl. apply in_or_app. right. exact Hv.
+      + exists d. split; [exact Hd|]. unfold L. lia.
+    - intros t Ht. simpl fst.
+      assert (Hin : In t (keys value)).
+      { apply Hk. destruct (eo t) as [|x r] eqn:Ht0.
+        - left. apply Hk0. right. apply filter_In. split; [exact Ht|]. rewrite Ht0. reflexivity.
+        - right. apply Htail. split; [exact Ht|]. rewrite Ht0. discriminate. }
+      destruct (keys_lookup _ _ Hin) as [x Hx]. exists (L - x). split; [exact (Hok t x Hx)|].
+      rewrite Hx. f_equal. lia.
+  Qed.
+End EnrichValue.
